@@ -583,48 +583,58 @@ def identifier_uniqueness(rep: Report, ctx: Any, rid: str) -> int:
     pp = ix.func("model_property._process_properties")
     reg = region(ix, pp)
     funcs: list[Any] = list(reg)
+    # ... their closures, and the methods of the private classes of the module that they instantiate (a collector object)
+    for c in ix.classes.values():
+        if c.module is pp.module and c.name.startswith("_") and any(isinstance(k, ast.Call) and norm(k.func) == c.name
+                                                                     for g in reg for k in ast.walk(g.node)):
+            funcs += [m for m in c.methods.values() if not any(m is g for g in funcs)]
     for h in ix.all_functions:
         q = h.parent
         while q is not None:
-            if any(q is g for g in reg) and not any(h is g for g in funcs):
+            if any(q is g for g in funcs) and not any(h is g for g in funcs):
                 funcs.append(h)
             q = q.parent
     cfgs: dict = {}
-
-    def inside(g: Any) -> bool:
-        q = g
-        while q is not None:
-            if q is pp:
-                return True
-            q = q.parent
-        return False
 
     def calls_to(h: Any) -> "list[tuple[Any, ast.Call]]":
         return [(g, c) for g in funcs if g is not h for c in _own(g.node) if isinstance(c, ast.Call)
                 and norm(c.func).rsplit(".", 1)[-1] == h.name]
 
-    # the mapping, by role: a dict that _process_properties creates empty and into which properties are stored by subscript (under
-    # whatever name: a closure reads it by the same name, a helper by the parameter it is handed to)
-    made = {n for n, ds in Locals(pp.node).defs.items()
-            if any(k == "assign" and ((isinstance(v, ast.Dict) and not v.keys) or (isinstance(v, ast.Call) and norm(v.func) == "dict" and not v.args and not v.keywords))
-                   for k, _st, v in ds)}
+    def stores_of(g: Any) -> "list[tuple[ast.stmt, ast.AST, ast.AST, ast.AST]]":
+        """(statement, mapping, key, value) of the statements of g that put something into a mapping"""
+        out = []
+        for st in _own(g.node):
+            if isinstance(st, (ast.Assign, ast.AnnAssign)) and getattr(st, "value", None) is not None:
+                tg = st.targets if isinstance(st, ast.Assign) else [st.target]
+                out += [(st, t.value, t.slice, st.value) for t in tg if isinstance(t, ast.Subscript)]
+            elif isinstance(st, ast.Expr) and isinstance(st.value, ast.Call) and isinstance(st.value.func, ast.Attribute) \
+                    and st.value.func.attr in ("setdefault", "__setitem__") and len(st.value.args) == 2:
+                out.append((st, st.value.func.value, st.value.args[0], st.value.args[1]))
+        return out
 
-    def mapping_names(g: Any) -> "set[str]":
-        if inside(g):
-            return set(made)
-        out: set[str] = set()
-        for h, c in calls_to(g):
-            for prm, a in _bound_args(g, c).items():
-                if isinstance(a, ast.Name) and a.id in mapping_names(h):
-                    out.add(prm)
+    # the mapping, by role: what a property is stored in under its own document name (`<m>[<p>.name] = <p>`), as the functions that
+    # do so refer to it (a local that closures share, an attribute of the collector object); a helper that is handed it knows it by
+    # a parameter
+    shared = {norm(m) for g in funcs for _st, m, k, v in stores_of(g)
+              if isinstance(v, ast.Name) and isinstance(k, ast.Attribute) and k.attr == "name" and isinstance(k.value, ast.Name) and k.value.id == v.id}
+    rep.require(shared, "a statement that stores a property under its document name (`<mapping>[<p>.name] = <p>`) in _process_properties, "
+                        "its closures and helpers")
+
+    def mapping_names(g: Any, depth: int = 2) -> "set[str]":
+        out = set(shared) - set(_params(g))
+        if depth > 0:
+            for h, c in calls_to(g):
+                for prm, a in _bound_args(g, c).items():
+                    if norm(a) in mapping_names(h, depth - 1):
+                        out.add(prm)
         return out
 
     def sources(e: ast.AST, g: Any, depth: int = 0) -> "set[str]":
-        """names the iterable e is drawn from (through locals bound to views / copies of it)"""
-        out = names_in(e)
+        """what the iterable e is drawn from: the names and attribute paths in it (through locals bound to views / copies)"""
+        out = {norm(n) for n in ast.walk(e) if isinstance(n, (ast.Name, ast.Attribute))}
         if depth < 2:
             lc = Locals(g.node)
-            for n in list(out):
+            for n in [x.id for x in ast.walk(e) if isinstance(x, ast.Name)]:
                 for v in lc.values_of(n):
                     out |= sources(v, g, depth + 1)
         return out
@@ -646,9 +656,6 @@ def identifier_uniqueness(rep: Report, ctx: Any, rid: str) -> int:
                                 if isinstance(a, ast.Name) and a.id == prop and compares(h, [h.node], prm, depth - 1):
                                     return True
         return False
-
-    def names_in(e: "ast.AST | None") -> "set[str]":
-        return {n.id for n in ast.walk(e) if isinstance(n, ast.Name)} if e is not None else set()
 
     def checks(g: Any, prop: str, depth: int = 1) -> "list[ast.stmt]":
         """the statements of g after which prop's identifier has been compared with that of everything the mapping holds"""
@@ -693,21 +700,8 @@ def identifier_uniqueness(rep: Report, ctx: Any, rid: str) -> int:
     n = 0
     for g in funcs:
         mp_ = mapping_names(g)
-        if not mp_:
-            continue
-        for st in _own(g.node):
-            val: "ast.AST | None" = None
-            key: "ast.AST | None" = None
-            if isinstance(st, (ast.Assign, ast.AnnAssign)) and getattr(st, "value", None) is not None:
-                tg = st.targets if isinstance(st, ast.Assign) else [st.target]
-                sub = next((t for t in tg if isinstance(t, ast.Subscript) and isinstance(t.value, ast.Name) and t.value.id in mp_), None)
-                if sub is not None:
-                    key, val = sub.slice, st.value
-            elif isinstance(st, ast.Expr) and isinstance(st.value, ast.Call) and isinstance(st.value.func, ast.Attribute) \
-                    and st.value.func.attr in ("setdefault", "update", "__setitem__") and isinstance(st.value.func.value, ast.Name) \
-                    and st.value.func.value.id in mp_ and st.value.args:
-                key, val = st.value.args[0], st.value.args[-1]
-            if val is None:
+        for st, m, key, val in stores_of(g):
+            if norm(m) not in mp_:
                 continue
             n += 1
             bad = unchecked(g, st, val.id if isinstance(val, ast.Name) else None)  # type: ignore[arg-type]
